@@ -9,9 +9,20 @@
    (c16_bandwidth_is_peak_and_mean: over the listed non-gap segments of positive duration, every
    segment's own rate 8 x bytes / duration is at most BANDWIDTH, one of them attains it, and
    AVERAGE-BANDWIDTH = 8 x total bytes / total duration).
-   Established by the correspondence run + oracle only: the RFC 6381 strings, RESOLUTION and
-   FRAME-RATE (SPS / sequence-header parsing is an oracle), the bandwidth values against the bytes
-   actually served. *)
+   The RFC 6381 strings (last section): Model/CodecStr.v transcribes pkg/codecparams/marshal.go over
+   the fields Marshal reads (avc1 from SPS bytes 1..3, hvc1 from the SPS profile_tier_level, vp09,
+   av01 from the sequence header, mp4a.40, opus). For all field values within the ranges of their Go
+   types: every string Marshal returns is accepted by the grammar of its family written from the
+   bindings (fixed number of dot-separated components, none empty, decimal / lower-case
+   hexadecimal digits, fixed widths where the binding fixes them), it is empty exactly when the
+   parameters do not parse / the SPS is too short / the codec is unknown, and it determines every
+   field it prints (for av01: up to an absent colour description being printed like the explicit
+   1, 1, 1, limited range). The muxer model still treats a track's codec string as an abstract code:
+   that CODECS lists Marshal of the CURRENT parameters is the model's statement about these codes
+   plus the correspondence run; that the fields are what the parameter bytes encode (SPS /
+   sequence-header parsing by mediacommon) is an oracle.
+   Established by the correspondence run + oracle only: RESOLUTION and FRAME-RATE, the bandwidth
+   values against the bytes actually served. *)
 From Coq Require Import List ZArith Bool.
 From GoHls Require Import Model.Mux Proofs.MuxStream Proofs.MuxLift Proofs.MuxWindow Proofs.MuxHistory
   Proofs.MuxPlaylist Proofs.MuxMulti Proofs.MuxBandwidth Proofs.MuxLogStep Proofs.MuxSpanHist Proofs.MuxAuditAddsEx Proofs.MuxOneDefault.
@@ -121,3 +132,81 @@ Theorem c16_example_nonvacuous : exists m0 mv,
         = (2400, 2400, Some (true, 1), [true], [true]).
 Proof. exact multivariant_example. Qed.
 Print Assumptions c16_example_nonvacuous.
+
+(* ---- the RFC 6381 codec strings (pkg/codecparams.Marshal as a function of the fields it reads) ---- *)
+From Coq Require Import String Ascii.
+From GoHls Require Import Model.CodecStr Proofs.CodecStr.
+Local Open Scope string_scope.
+
+(* well-formedness: whenever Marshal returns a string, the string is in the grammar of its family
+   (in particular no empty component, no dangling period) *)
+Theorem c16_codec_string_wellformed : forall c : codec,
+  codec_fields_ok c = true -> no_string c = false -> wf_codec_string (marshal c) = true.
+Proof. exact marshal_wellformed. Qed.
+Print Assumptions c16_codec_string_wellformed.
+
+(* ... and it returns the empty string exactly when the parameters do not parse (AV1, H265), the H264
+   SPS has fewer than 4 bytes, or the codec is none of the six *)
+Theorem c16_codec_string_empty_iff : forall c : codec,
+  codec_fields_ok c = true -> (marshal c = "" <-> no_string c = true).
+Proof. exact marshal_empty_iff. Qed.
+Print Assumptions c16_codec_string_empty_iff.
+
+(* case: the hexadecimal positions of the grammar admit 0-9 a-f only (Go's %x and hex.EncodeToString) *)
+Theorem c16_codec_string_hex_is_lower_case : forall ch : ascii,
+  is_lhex_digit ch = true -> (Nat.leb 65 (nat_of_ascii ch) && Nat.leb (nat_of_ascii ch) 90)%bool = false.
+Proof. exact lhex_not_upper. Qed.
+Print Assumptions c16_codec_string_hex_is_lower_case.
+
+(* the string determines the fields it prints *)
+Theorem c16_codec_string_injective_h265 : forall p q : h265_ptl,
+  h265_ptl_ok p = true -> h265_ptl_ok q = true -> marshal (H265 (Some p)) = marshal (H265 (Some q)) -> p = q.
+Proof. exact marshal_h265_injective. Qed.
+Print Assumptions c16_codec_string_injective_h265.
+
+Theorem c16_codec_string_injective_av1 : forall s t : av1_sh,
+  av1_sh_ok s = true -> av1_sh_ok t = true -> marshal (AV1 (Some s)) = marshal (AV1 (Some t)) -> av1_shown s = av1_shown t.
+Proof. exact marshal_av1_injective. Qed.
+Print Assumptions c16_codec_string_injective_av1.
+
+Theorem c16_codec_string_injective_vp9 : forall p b p' b' : Z,
+  in_bits 8 p = true -> in_bits 8 b = true -> in_bits 8 p' = true -> in_bits 8 b' = true ->
+  marshal (VP9 p b) = marshal (VP9 p' b') -> p = p' /\ b = b'.
+Proof. exact marshal_vp9_injective. Qed.
+Print Assumptions c16_codec_string_injective_vp9.
+
+Theorem c16_codec_string_injective_h264 : forall (x a b c : Z) (r : list Z) (x' a' b' c' : Z) (r' : list Z),
+  forallb (in_bits 8) [a; b; c; a'; b'; c'] = true ->
+  marshal (H264 (x :: a :: b :: c :: r)) = marshal (H264 (x' :: a' :: b' :: c' :: r')) -> a = a' /\ b = b' /\ c = c'.
+Proof. exact marshal_h264_injective. Qed.
+Print Assumptions c16_codec_string_injective_h264.
+
+Theorem c16_codec_string_injective_mpeg4audio : forall t t' : Z,
+  0 <= t -> 0 <= t' -> marshal (MPEG4Audio t) = marshal (MPEG4Audio t') -> t = t'.
+Proof. exact marshal_mpeg4audio_injective. Qed.
+Print Assumptions c16_codec_string_injective_mpeg4audio.
+
+(* strings of different codec families differ *)
+Theorem c16_codec_string_family : forall c c' : codec,
+  codec_fields_ok c = true -> codec_fields_ok c' = true -> no_string c = false -> no_string c' = false ->
+  marshal c = marshal c' -> family c = family c'.
+Proof. exact marshal_family. Qed.
+Print Assumptions c16_codec_string_family.
+
+(* non-vacuity: the values of pkg/codecparams/marshal_test.go are within the ranges and give its strings *)
+Theorem c16_codec_string_examples :
+  marshal (H265 (Some ex_h265)) = "hvc1.1.6.L120.90" /\ marshal (AV1 (Some ex_av1)) = "av01.0.08M.08.0.110.01.01.01.0"
+  /\ marshal (VP9 1 8) = "vp09.01.10.08" /\ marshal (H264 [103; 66; 192; 40; 217]) = "avc1.42c028"
+  /\ marshal Opus = "opus" /\ marshal (MPEG4Audio 2) = "mp4a.40.2"
+  /\ forallb codec_fields_ok [H265 (Some ex_h265); AV1 (Some ex_av1); VP9 1 8; H264 [103; 66; 192; 40; 217]; Opus; MPEG4Audio 2] = true.
+Proof. exact examples_marshal. Qed.
+Print Assumptions c16_codec_string_examples.
+
+(* the grammar is not trivial: a dangling period, an empty component, upper-case hexadecimal, a missing
+   or superfluous component are rejected *)
+Theorem c16_codec_string_grammar_rejects :
+  map wf_codec_string ["hvc1.1.6.L120."; "hvc1.1..L120.90"; "hvc1.1.6.L120.B0"; "avc1.42C028"; "avc1.42c02";
+                       "av01.0.08M.08"; "vp09.1.10.08"; "mp4a.40."; "hvc1.1.6.L120.90.0.0"; ""]
+  = [false; false; false; false; false; false; false; false; false; false].
+Proof. exact examples_rejected. Qed.
+Print Assumptions c16_codec_string_grammar_rejects.
